@@ -207,6 +207,14 @@ def note_solve(out, A, y):
             g = np.max(np.abs(A.T @ y)) if y.size else 0.0
         if not np.isfinite(g) or g > 10.0 * max(A.shape):
             out["huge"] = True
+        if out.get("nnls"):
+            from vf.ref.lsq import f13_regime
+
+            try:
+                if any(f13_regime(A, y).values()):
+                    out["f13"] = True
+            except Exception:  # noqa
+                out["f13"] = True
 
 
 def kappa(A):
@@ -234,7 +242,7 @@ def evaluate_group(case, g, pv, data, linked):
     nnls = gd["residual_function"] == "non_negative_least_squares"
     dss = group_datasets(case, g)
     out = {"residuals": {}, "clps": {}, "clp_labels": {}, "penalties": [], "n_clps": 0, "kappa": 1.0, "weights": {},
-           "full": {}, "linked": linked, "aligned": None, "nnls": nnls, "huge": False}
+           "full": {}, "linked": linked, "aligned": None, "nnls": nnls, "huge": False, "f13": False}
     mats = {}
     for ds in dss:
         D, Wd = data[ds["label"]]
